@@ -394,3 +394,31 @@ def edge_doc(r, plugins=()):
         else:
             out.append("%s%s%s\n" % (w, r.choice(["# h", "- a", "> q", "    code", "```\nc\n```", "| a |\n|---|", "<div>", "[r]: /u"]), w))
     return "\n".join(out)
+
+
+def toc_doc(r, style="fenced"):
+    """headings with any sequence of levels (ATX and setext, also inside a quote or a list, which are not eligible) and a toc
+    directive before, between or after them, with or without a level range"""
+    n = r.randint(1, 7)
+    parts = []
+    for i in range(n):
+        lv = r.randint(1, 6)
+        t = words(r, 1, 2) + r.choice(["", "", " *em*", " `c`", " <b>", " [l](/u)", " &amp;"])
+        k = r.random()
+        if k < 0.75:
+            parts.append("#" * lv + " " + t + "\n")
+        elif k < 0.85 and lv <= 2:
+            parts.append(t + "\n" + ("=" if lv == 1 else "-") * 3 + "\n")
+        elif k < 0.93:
+            parts.append("> " + "#" * lv + " " + t + "\n")
+        else:
+            parts.append("- " + "#" * lv + " " + t + "\n")
+    lo, hi = sorted([r.randint(1, 6), r.randint(1, 6)])
+    opts = r.choice([[], [], [("max-level", hi)], [("min-level", lo), ("max-level", hi)], [("min-level", lo)]])
+    title = r.choice(["", "", " Contents", " T *x*"])
+    if style == "fenced":
+        d = "```{toc}%s\n%s```\n" % (title, "".join(":%s: %s\n" % o for o in opts))
+    else:
+        d = ".. toc::%s\n%s" % (title, "".join("   :%s: %s\n" % o for o in opts))
+    parts.insert(r.randint(0, len(parts)), d)
+    return "\n".join(parts)
